@@ -251,3 +251,6 @@ _quick("C05", "C05_longpair", "2..3 queued requests with T=60 s in ONE bucket of
 _quick("C06", "C06_longpair", "2..3 holds with E=60 s (one key shared, or one key each) in ONE bucket of the long-expiry table; at tick 45 / 50 / 59 one of them is released; tick by tick to E+3", ["-witness", "3"])
 _quick("C18", "C18_reinit", "connection A (client id X) leaves a queued request and closes; connection C announces one or two ids out of {X, Y} in any order; the later grant is delivered to C exactly if its current id is X; client table empty after C closes", ["-witness", "1"], reach=["end", "rerouted", "dropped"])
 _quick("C13", "C13_bufresult", "buffered reply path of the binary protocol, one inductive step: writer buffer (4096 bytes) filled to within 0..320 bytes of its limit (or 0 / 64 / 164), one more result with a value frame of 0 / 8 / 63 / 64 / 100 / 3967 / 3968 / 4096 bytes", ["-witness", "200"])
+
+for _p, _extra in (("C02", "; lock flags show/update excluded"), ("C03", ""), ("C04", ""), ("C17", "")):
+    _quick(_p, _p + "_step_aof", "as %s_step with <=2 holders and <=1 queued request, the holders persisted holds or not, the step's LOCK with symbolic persistence-timing flags (records are queued on the persistence channel)%s" % (_p, _extra), ["-witness", "200"])
